@@ -117,3 +117,86 @@ def inject(workload, base, rel_paths, op, scratch):
     return dict(rc=p.returncode, killed=killed, matched=killed and bool(last),
                 tail=last.replace(" <unfinished ...>", " = ?").strip()[:200], victims=len(victims),
                 stdout=p.stdout[-4000:])
+
+
+# ------------------------------------------------------------------ parent of a parallel workload ---
+
+PARENT_CALLS = "write,writev,sendto,sendmsg"
+
+
+def _strace_parent(args, out, extra=(), env=None):
+    """Trace only the main process (no -f): its children (pool workers, manager, writer process) run free.
+    The whole process group is killed after the main process has gone and a grace period has passed."""
+    import signal
+    import time
+
+    cmd = ["strace", "-y", "-o", out, "-e", f"trace={PARENT_CALLS}", *extra, PY, WL, *args]
+    # output goes to files: orphaned children keep inherited pipes open and would block a reader forever
+    with open(out + ".stdout", "w") as fo, open(out + ".stderr", "w") as fe:
+        p = subprocess.Popen(cmd, stdout=fo, stderr=fe, text=True, start_new_session=True,
+                             env=dict(os.environ, **(env or {})))
+        try:
+            p.wait(timeout=120)
+        except subprocess.TimeoutExpired:
+            os.killpg(p.pid, signal.SIGKILL)
+            raise HarnessError("parent-traced workload did not end")
+    return p, open(out + ".stdout").read(), open(out + ".stderr").read()
+
+
+def _kill_group(p, grace):
+    import signal
+    import time
+
+    time.sleep(grace)  # orphans that decide by themselves what to do with the cache get the time to do it
+    try:
+        os.killpg(p.pid, signal.SIGKILL)
+    except ProcessLookupError:
+        pass
+
+
+def record_parent(workload, base, scratch):
+    """Write-like system calls of the main process of a parallel workload (pipes to the pool, manager socket)."""
+    snap = os.path.join(scratch, "snap")
+    setup(workload, base)
+    shutil.copytree(base, snap, symlinks=True)
+    rec = os.path.join(scratch, "recp.txt")
+    p, out, err = _strace_parent([workload, "work", base], rec)
+    _kill_group(p, 0.0)
+    if p.returncode != 0:
+        raise HarnessError(f"recording run of {workload} failed rc={p.returncode}: {err[-1500:]}")
+    ops, counts = [], {}
+    for line in open(rec, errors="replace"):
+        m = re.match(r"^(\w+)\((.*)$", line)
+        if not m:
+            continue
+        name = m.group(1)
+        counts[name] = counts.get(name, 0) + 1
+        ops.append(dict(name=name, ordinal=counts[name], text=f"{name}({m.group(2).rstrip()}"[:120], mutating=True, proc=0))
+    # plus: the main process dies when it asks its source for chunk k (the pool's dispatch happens in a helper thread
+    # of the main process, which is not traced; 8 chunk requests: 7 chunks of one record and the end of input)
+    for k in range(1, 8):
+        ops.append(dict(name="chunk-request", ordinal=k, text=f"chunk-request({k})", mutating=True, proc=0))
+    shutil.rmtree(base)
+    shutil.copytree(snap, base, symlinks=True)
+    return [], ops
+
+
+def inject_parent(workload, base, op, scratch, grace=2.5):
+    out = os.path.join(scratch, "injp.txt")
+    if op["name"] == "chunk-request":
+        p, stdout, stderr = _strace_parent([workload, "work", base], out, env=dict(W1P_KILL_AT_CHUNK=str(op["ordinal"])))
+        _kill_group(p, grace)
+        killed = p.returncode in (-9, 137)
+        return dict(rc=p.returncode, killed=killed, matched=killed, tail=f"chunk-request({op['ordinal']}) = ?", victims=int(killed),
+                    stdout=stdout[-4000:])
+    extra = ["-e", f"inject={op['name']}:signal=KILL:when={op['ordinal']}"]
+    p, stdout, stderr = _strace_parent([workload, "work", base], out, extra)
+    _kill_group(p, grace)
+    text = open(out, errors="replace").read()
+    killed = "+++ killed by SIGKILL +++" in text
+    last = ""
+    for l in reversed(text.splitlines()):
+        if l.startswith(op["name"] + "("):
+            last = l
+            break
+    return dict(rc=p.returncode, killed=killed, matched=killed and bool(last), tail=last[:200], victims=int(killed), stdout=stdout[-4000:])
